@@ -18,6 +18,9 @@ ASSUMPTIONS = [
 def run(check):
     check.run_rule('C14.R1', lambda c: rule_eq_totality(c, 'C14.R1', 'C14.R2'))
     check.run_rule('C14.R3', lambda c: rule_replace_and_slots(c, 'C14.R3'))
+    # "every signature sigtools returns": each way out of forged_signature goes through the upgrade (shared with C07.R6)
+    from ..rules_escape import rule_chain_order
+    check.run_rule('C14.R6', lambda c: rule_chain_order(c, 'C14.R6'))
     from ..rules_classes import rule_eq_does_not_evaluate
     check.run_rule('C14.R1e', lambda c: rule_eq_does_not_evaluate(c, 'C14.R1'))
     from ..rules_classes import rule_iterable_traversed_once
